@@ -439,8 +439,8 @@ def validate_records(module, cfg, records, nchunks=16, timeout=1800, idvar="i", 
         while chunk and rounds <= max_rounds + len(out["rejected"]):
             rounds += 1
             tf = os.path.join(d, "chunk%d_%d.json" % (k, rounds))
-            with open(tf, "w") as f:
-                json.dump(chunk, f, default=_jd)
+            with open(tf, "w") as f:   # keys starting with "_" are harness-side metadata, not for TLC
+                json.dump([{k_: v_ for k_, v_ in rc.items() if not k_.startswith("_")} for rc in chunk], f, default=_jd)
             env = {"TRACE_FILE": tf}
             if extra_env:
                 env.update(extra_env)
